@@ -4,3 +4,4 @@ import SqLemmas.MachineLemmas
 import SqLemmas.ParseSpec
 import SqLemmas.ParseComplete
 import SqLemmas.ParseLayout
+import SqLemmas.ParseSound
